@@ -59,6 +59,7 @@ KERNELS = {
     "compare_indexed_rows_for_journalling": {"owner": "C17", "mutated": [6]},
     "merge_journalled_entries": {"owner": "C17", "mutated": [5]},              # returns None: the result is `dest`
     "merge_indexed_journalled_entries_count": {"owner": "C17"},
+    "categorical_transform": {"owner": "C06", "mutated": [0]},                 # returns None: the result is `chunk`
     "generate_ordered_map_to_left_both_unique": {"owner": "C19", "mutated": [2]},
     "generate_ordered_map_to_left_right_unique": {"owner": "C19", "mutated": [2]},
     "ordered_inner_map_both_unique": {"owner": "C19", "mutated": [2, 3]},      # returns None
@@ -656,6 +657,77 @@ def random_c17(rng, n_cases):
     return out
 
 
+# ----------------------------------------------------------------------------------------------------------------------
+# C06: categorical_transform on staging arrays as the CSV reader fills them (2-D `column_inds`, flat `column_vals`)
+# ----------------------------------------------------------------------------------------------------------------------
+
+def categorical_safe(chunk_n, ic, cinds, vals, coffs, keys, index, values):
+    """every subscript the kernel makes is in range (a negative one within -len..-1 wraps, still in range)"""
+    if not _inr(ic, len(coffs)) or not _inr(ic, len(cinds)):
+        return False
+    off, row = coffs[ic], cinds[ic]
+    for r in range(len(row) - 1):
+        if r >= chunk_n:
+            break
+        ks, kl = row[r], row[r + 1] - row[r]
+        for i in range(len(index) - 1):
+            if kl != index[i + 1] - index[i]:
+                continue
+            found = i
+            for j in range(kl):
+                a, b = off + ks + j, index[i] + j
+                if not (_inr(a, len(vals)) and _inr(b, len(keys))):
+                    return False
+                if vals[a] != keys[b]:
+                    found = -1
+                    break
+            if found != -1 and not _inr(found, len(values)):
+                return False
+    return True
+
+
+def random_c06(rng, n_cases):
+    out = []
+    words = [b"", b"a", b"b", b"ab", b"abc", b"ba", b"yes", b"no", b"a ", b"n"]
+    for t in range(n_cases):
+        ncols = rng.randrange(1, 4)
+        nrows = rng.choice([0, 1, 2, 3, rng.randrange(1, 8)])
+        cats = sorted(set(rng.sample(words, rng.randrange(0, 5))))
+        keys = [c for w in cats for c in w]
+        index = [0]
+        for w in cats:
+            index.append(index[-1] + len(w))
+        values = [rng.randrange(-3, 100) for _ in cats]
+        cinds, vals, coffs = [], [], [0]
+        for c in range(ncols):
+            row, buf = [0], []
+            for _ in range(nrows):
+                w = rng.choice(cats) if cats and rng.random() < 0.6 else rng.choice(words)
+                buf.extend(w)
+                row.append(len(buf))
+            stale = rng.randrange(0, 3)                         # stale entries after the rows written in this call
+            cinds.append(row + [rng.randrange(0, 5) for _ in range(stale)])
+            vals.extend(buf + [88] * rng.randrange(0, 3))
+            coffs.append(len(vals))
+        width = max(len(r) for r in cinds)
+        cinds = [r + [0] * (width - len(r)) for r in cinds]
+        ic = rng.randrange(0, ncols)
+        what = rng.randrange(12)
+        if what == 0:
+            ic = ncols + rng.randrange(0, 2)                    # the column subscript beyond the staging arrays
+        elif what == 1 and index:
+            index = index[:-1] + [index[-1] + 2]                # a table whose last key runs past `cat_keys`
+        elif what == 2:
+            vals = vals[:rng.randrange(0, len(vals) + 1)]
+        elif what == 3:
+            values = values[:-1]
+        chunk_n = nrows if rng.random() < 0.8 else rng.randrange(0, nrows + 2)
+        out.append(gcase("categorical_transform",
+                         [arr([0] * chunk_n), {"int": ic}, arr2(cinds), arr(vals), arr(coffs), arr(keys), arr(index), arr(values)],
+                         unsafe=not categorical_safe(chunk_n, ic, cinds, vals, coffs, keys, index, values), _from="random"))
+    return out
+
+
 def random_c19(rng, n_cases):
     out = []
     for t in range(n_cases):
@@ -685,7 +757,7 @@ def random_c19(rng, n_cases):
 
 
 DERIVE = {"C08": derive_c08, "C09": derive_c09, "C04": derive_c04}
-RANDOM = {"C08": random_c08, "C09": random_c09, "C04": random_c04, "C03": random_c03, "C17": random_c17, "C19": random_c19}
+RANDOM = {"C06": random_c06, "C08": random_c08, "C09": random_c09, "C04": random_c04, "C03": random_c03, "C17": random_c17, "C19": random_c19}
 
 
 def extra_cases(owner, cases, tier, rng):
